@@ -45,9 +45,9 @@ var c04ModSeqs = func() [][]byte {
 	return out
 }()
 
-const c04Contexts = 8
+const c04Contexts = 9
 
-var c04CtxNames = [...]string{"top-level", "struct-field", "slice-element", "behind-pointer", "struct-in-slice", "slice-in-struct", "struct-field-between-catching-siblings", "field-of-a-go-struct-used-as-input"}
+var c04CtxNames = [...]string{"top-level", "struct-field", "slice-element", "behind-pointer", "struct-in-slice", "slice-in-struct", "struct-field-between-catching-siblings", "field-of-a-go-struct-used-as-input", "field-of-a-typed-map-record"}
 
 func (c04) Info(t core.Tier) core.Info {
 	return core.Info{
@@ -232,6 +232,51 @@ func c04Wrap(cell *spec.Node, ctx int) (root *spec.Node, wrapData func(any) any,
 				return rv.Addr().Interface() // a pointer to the struct is an equally valid record
 			}
 			return rv.Interface()
+		}
+		wrapVal = func(v any) any { return map[string]any{"F": v, "Other": "o", "XUntouchedS": "sentinel-untouched"} }
+	}
+	if ctx == 8 {
+		// the record is a typed map (map[string]string / int / float64 / bool) whenever the input's own type allows it: a key
+		// missing from such a map is a missing key, not the element type's zero value
+		root = &spec.Node{Kind: spec.Struct, ExtraFields: extra, Fields: []spec.Field{{Key: "f", GoName: "F", Node: cell}, {Key: "other", GoName: "Other", Node: other()}}}
+		elemOf := func(k spec.Kind) reflect.Type {
+			switch k {
+			case spec.String:
+				return reflect.TypeOf("")
+			case spec.Int:
+				return reflect.TypeOf(0)
+			case spec.Float64:
+				return reflect.TypeOf(0.0)
+			case spec.Bool:
+				return reflect.TypeOf(false)
+			}
+			return nil
+		}
+		wrapData = func(v any) any {
+			_, miss := v.(missingKey)
+			var et reflect.Type
+			if miss {
+				k := cell.Kind
+				if k == spec.Ptr {
+					k = cell.Elem.Kind
+				}
+				et = elemOf(k)
+			} else if v != nil {
+				switch v.(type) {
+				case string, int, float64, bool:
+					et = reflect.TypeOf(v)
+				}
+			}
+			if et == nil {
+				return rec(v)
+			}
+			m := reflect.MakeMap(reflect.MapOf(reflect.TypeOf(""), et))
+			sib := map[reflect.Kind]any{reflect.String: "o", reflect.Int: 7, reflect.Float64: 7.5, reflect.Bool: true}[et.Kind()]
+			m.SetMapIndex(reflect.ValueOf("other"), reflect.ValueOf(sib))
+			if !miss {
+				m.SetMapIndex(reflect.ValueOf("f"), reflect.ValueOf(v))
+			}
+			return m.Interface()
 		}
 		wrapVal = func(v any) any { return map[string]any{"F": v, "Other": "o", "XUntouchedS": "sentinel-untouched"} }
 	}
